@@ -1,4 +1,6 @@
 """C14 — blocks and headers round-trip, block ids and merkle roots follow the Bitcoin definition, merkleblock proofs."""
+import functools
+import hashlib
 import io
 
 from vmon.probe import shard_rng, observe
@@ -15,7 +17,14 @@ RULE = ("cases: (block class BTC/LTC, block bytes built by the reference seriali
         "every length; merkleblock messages built by refs/pmt + refs/p2p for every match subset of trees <= 11 leaves (quick; 14 thorough; sampled "
         "beyond) and every single-position corruption of each (hash bit, hash appended/inserted/removed, padding bit, extra "
         "flag byte, header root), plus forged CVE-2012-2459 duplicate proofs at every odd level. Distinct by the bytes handed to "
-        "pycoin; non-trivial when the block/list has > 1 element or the proof was corrupted or matches something.")
+        "pycoin; non-trivial when the block/list has > 1 element or the proof was corrupted or matches something. Histories "
+        "(one process, shared state): sequences of merkle(list[, hash_f]) calls over overlapping lists (whole, prefixes, even "
+        "suffixes, extended, last replaced, reversed; the same list objects reused) with the combining function drawn from a "
+        "family (default, pycoin's and an independent double-SHA256 positional / by keyword, SHA-256, tagged, lambdas, partials, "
+        "bound methods, an unhashable callable object, non-hash functions) in both orders; blocks parsed after other trees were "
+        "computed over their txids, incl. blocks carrying the other function's root (must be refused); one Block object taken "
+        "through set_txs(good/bad, checked/unchecked) / check_merkle_hash / as_bin, and through set_nonce / hash / id / as_bin / "
+        "as_blockheader sequences incl. returning to an earlier nonce; honest proofs re-parsed after their corruptions.")
 ASSUMPTIONS = [
     "reference serialisers/merkle/partial merkle tree in vmon/refs (blockser, txser, merkle, pmt, p2p) are correct; self-tested on "
     "every run against the genesis header id, a real 3-transaction mainnet block, blocks 170/71038 roots, the developer-reference "
@@ -27,6 +36,11 @@ ASSUMPTIONS = [
     "byte, flag flips inside the used range, truncated flags and a changed total_transactions are not decided by the statement: "
     "they are compared with refs/pmt.extract and only reported as notes",
     "the CVE-2012-2459 proofs (claimed larger block with the last subtree duplicated, same root) must be rejected",
+    "merkle(hashes, hash_f) with a caller-supplied combining function is read as 'the same tree (odd levels pair the last entry "
+    "with itself) with node = hash_f(left || right)'; merkle(hashes) and merkle(hashes, <any double-SHA256>) are the Bitcoin root "
+    "whatever was computed earlier in the process",
+    "a Block object is judged at each point of a history by its current header fields and its current transaction list as set "
+    "through the public methods (set_txs, set_nonce); attribute assignment and in-place edits of block.txs are not used",
 ]
 EXPLANATION = ("every block/header/merkle/merkleblock call on the real library is compared with the reference; honest proofs must be "
                "accepted with exactly the matched ids in order, listed corruptions must raise")
@@ -53,7 +67,9 @@ def plan(tier, seed):
               {"kind": "blocks", "net": "BTC", "reps": 2 if q else 40, "label": "blocks-BTC-b"},
               {"kind": "blocks", "net": "LTC", "reps": 2 if q else 40, "label": "blocks-LTC"},
               {"kind": "merkle", "upto": 400 if q else 2100, "label": "merkle"},
-              {"kind": "cve", "upto": 40 if q else 140, "label": "cve"}]
+              {"kind": "cve", "upto": 40 if q else 140, "label": "cve"},
+              {"kind": "history", "net": "BTC", "reps": 4 if q else 100, "label": "history-BTC"},
+              {"kind": "history", "net": "LTC", "reps": 4 if q else 100, "label": "history-LTC"}]
     for p in range(N_PROOF_SHARDS):
         shards.append({"kind": "proofs", "part": p, "parts": N_PROOF_SHARDS, "sampled": 96 if q else 8000,
                        "label": "proofs-%d" % p})
@@ -137,15 +153,19 @@ def _judge_id(b, data, case, rec):
         rec.violation("block.id_mismatch", case, i, want_hash[::-1].hex())
 
 
-def judge_block(net, data, rec, sample=False):
-    """Full block bytes whose transactions hash to the header root (checked by the reference first)."""
+def judge_block(net, data, rec, sample=False, pre=None):
+    """Full block bytes whose transactions hash to the header root (checked by the reference first).
+    pre: names of combining functions with which merkle(txids, f) is called first (other trees over the same leaves)."""
     N = _net(net)
     Block = N.block
     header, txs, used = RB.parse_block(data)
     case = {"kind": "block", "net": net, "data": data}
     if RB.root_of(txs) != header["root"]:
         raise RuntimeError("judge_block called with a block whose root does not match (generator error)")
-    rec.case(("block", net, data), nontrivial=len(txs) > 1)
+    if pre:
+        case["pre"] = list(pre)
+        _pre_calls([RT.txid_bytes(t) for t in txs], pre, case, rec)
+    rec.case(("block", net, data, tuple(pre or ())), nontrivial=len(txs) > 1)
     rec.ev("Block.from_bin")
     st, b = observe(Block.from_bin, data)
     if st != "ok":
@@ -177,6 +197,15 @@ def judge_block(net, data, rec, sample=False):
         if f.tell() != len(data):
             rec.violation("block.parse_consumed_wrong_length", case, f.tell(), len(data))
         st, out = observe(b2.as_bin)
+        if st != "ok" or out != data:
+            rec.violation("block.roundtrip_mismatch", case, out, data)
+    # non-default argument: offsets recorded while parsing; the block is the same block
+    rec.ev("Block.parse(include_offsets)")
+    st, b3 = observe(Block.parse, io.BytesIO(data), include_offsets=True)
+    if st != "ok":
+        rec.violation("block.parse_rejects_valid", case, b3, "block")
+    else:
+        st, out = observe(b3.as_bin)
         if st != "ok" or out != data:
             rec.violation("block.roundtrip_mismatch", case, out, data)
     # header-only parse of the same stream
@@ -215,7 +244,7 @@ def judge_block(net, data, rec, sample=False):
         rec.sample({"op": "Block.from_bin/as_bin/id", "net": net, "n_txs": len(txs), "id": RB.block_id(header), "bytes": len(data)})
 
 
-def judge_badroot(net, data, rec, cls="altered"):
+def judge_badroot(net, data, rec, cls="altered", pre=None):
     """Block bytes whose transactions do NOT hash to the header root: every checking entry point must raise."""
     N = _net(net)
     Block = N.block
@@ -224,7 +253,10 @@ def judge_badroot(net, data, rec, cls="altered"):
     if RB.root_of(txs) == header["root"]:
         raise RuntimeError("judge_badroot called with a consistent block (generator error)")
     case = {"kind": "badroot", "net": net, "data": data, "cls": cls}
-    rec.case(("badroot", net, data))
+    if pre:
+        case["pre"] = list(pre)
+        _pre_calls([RT.txid_bytes(t) for t in txs], pre, case, rec)
+    rec.case(("badroot", net, data, tuple(pre or ())))
     rec.ev("BadMerkleRoot:Block.from_bin")
     st, b = observe(Block.from_bin, data)
     if st == "ok":
@@ -237,6 +269,9 @@ def judge_badroot(net, data, rec, cls="altered"):
     st, b = observe(Block.parse, io.BytesIO(data))
     if st == "ok":
         rec.violation("block.accepts_bad_merkle_root.parse", case, "accepted", "BadMerkleRootError")
+    st, b = observe(Block.parse, io.BytesIO(data), include_offsets=True)
+    if st == "ok":
+        rec.violation("block.accepts_bad_merkle_root.parse_include_offsets", case, "accepted", "BadMerkleRootError")
     # unchecked parse is allowed to succeed; the explicit check and set_txs must then refuse
     st, b = observe(Block.parse, io.BytesIO(data), check_merkle_hash=False)
     if st == "ok":
@@ -365,6 +400,9 @@ def proof_suite(net, txids, matches, rng, rec, bits_per_hash=1, cap=8, sample=Fa
     J("extra_zero_flag_byte", f=fb + b"\0")
     if len(fb) > 1:
         J("flags_truncated", f=fb[:-1])
+    # the honest proof again, after its refused corruptions went through the same parser
+    rec.ev("proof:honest_again")
+    judge_proof(net, proof_msg(header, total, hashes, fb), "honest", want, rec)
 
 
 def special_subsets(n, rng, count):
@@ -605,6 +643,355 @@ def run_merkle(spec, rec):
     rec.sample({"op": "merkle(hashes)", "n": 5, "hashes": G.fake_txids("m", 5), "root": RM.root(G.fake_txids("m", 5))})
 
 
+# ------------------------------------------------------------------------------------------- histories
+
+def _sha256(b):
+    return hashlib.sha256(b).digest()
+
+
+def _keyed(b, key=b""):
+    return hashlib.blake2b(b, digest_size=32, key=key).digest()
+
+
+_TAG = hashlib.sha256(b"vmon/C14 tagged tree").digest() * 2
+
+
+class _CallableHash(object):
+    """a callable object that defines __eq__ and is therefore not hashable"""
+
+    def __init__(self, tag):
+        self.tag = tag
+
+    def __call__(self, b):
+        return hashlib.sha256(self.tag + b).digest()
+
+    def __eq__(self, other):
+        return isinstance(other, _CallableHash) and other.tag == self.tag
+
+    __hash__ = None
+
+
+class _Hasher(object):
+    def __init__(self, salt):
+        self.salt = salt
+
+    def node(self, b):
+        return hashlib.sha256(b + self.salt).digest()
+
+
+# name -> combining function handed to pycoin (and used by the reference). The Bitcoin ones are resolved in _hash_f().
+CUSTOM_F = {
+    "sha256": _sha256,
+    "lambda_sha512_32": lambda b: hashlib.sha512(b).digest()[:32],
+    "lambda_sha3": lambda b: hashlib.sha3_256(b).digest(),
+    "tagged": lambda b: hashlib.sha256(_TAG + b).digest(),
+    "partial_k1": functools.partial(_keyed, key=b"k1"),
+    "partial_k2": functools.partial(_keyed, key=b"k2"),
+    "bound_a": _Hasher(b"a").node,
+    "bound_b": _Hasher(b"b").node,
+    "callable_obj": _CallableHash(b"obj"),
+    "first32": lambda b: b[:32],
+    "xor_halves": lambda b: bytes(x ^ y for x, y in zip(b[:32], b[32:])),
+    "rev_dsha": lambda b: RT.dsha(b)[::-1],
+}
+BITCOIN_F = ("default", "pycoin_double_sha256", "own_dsha")
+
+
+def _hash_f(name):
+    """-> (callable to hand over or None for 'argument omitted', reference combining function)"""
+    if name == "default":
+        return None, RM.dsha
+    if name == "pycoin_double_sha256":
+        from pycoin.encoding.hash import double_sha256
+        return double_sha256, RM.dsha
+    if name == "own_dsha":
+        return RT.dsha, RM.dsha
+    return CUSTOM_F[name], CUSTOM_F[name]
+
+
+def _call_merkle(hashes, name, kw, rec):
+    from pycoin.merkle import merkle
+    f, ref_f = _hash_f(name)
+    rec.ev("merkle")
+    if f is None:
+        return observe(merkle, hashes), ref_f
+    rec.ev("merkle(hash_f=double_sha256)" if name in BITCOIN_F else "merkle(hash_f=custom)")
+    if kw:
+        return observe(merkle, hashes, hash_f=f), ref_f
+    return observe(merkle, hashes, f), ref_f
+
+
+def _pre_calls(txids, pre, case, rec):
+    """other components computing other trees over the same leaves first"""
+    for name in pre:
+        (st, r), ref_f = _call_merkle(list(txids), name, False, rec)
+        want = RM.root_with(txids, ref_f)
+        if st != "ok" or bytes(r) != want:
+            rec.violation("merkle.history.bitcoin_root_mismatch" if name in BITCOIN_F else "merkle.history.custom_hash_f_root_mismatch",
+                          case, r, want)
+
+
+def _variant(tag, n, variant):
+    base = G.fake_txids(tag, n)
+    extra = G.fake_txids(tag + "+", 6)
+    kind = variant[0]
+    if kind == "all":
+        return base
+    if kind == "prefix":
+        return base[:variant[1]]
+    if kind == "drop_even":
+        return base[2 * variant[1]:]
+    if kind == "plus":
+        return base + extra[:variant[1]]
+    if kind == "last_replaced":
+        return base[:-1] + [extra[0]]
+    if kind == "rev":
+        return base[::-1]
+    if kind == "mid_replaced":                   # same length, same first and last entry
+        k = variant[1]
+        return base[:k] + [extra[1]] + base[k + 1:]
+    if kind == "mid_swapped":
+        k = variant[1]
+        return base[:k] + [base[k + 1], base[k]] + base[k + 2:]
+    raise ValueError(variant)
+
+
+def gen_merkle_history(rng, n):
+    """ops = [variant, function name, by keyword]; overlapping lists, both orders of custom / Bitcoin functions"""
+    customs = sorted(CUSTOM_F)
+    variants = [("all",)] * 4 + [("plus", rng.randrange(1, 5)), ("last_replaced",), ("rev",)]
+    if n > 1:
+        variants += [("prefix", rng.randrange(1, n)), ("prefix", n - 1)]
+    if n > 2:
+        variants += [("drop_even", rng.randrange(1, (n + 1) // 2)), ("mid_replaced", rng.randrange(1, n - 1))]
+    if n > 3:
+        variants += [("mid_swapped", rng.randrange(1, n - 2))]
+    f1, f2 = rng.sample(customs, 2)
+    head = [[("all",), f1, rng.random() < 0.3], [("all",), rng.choice(BITCOIN_F), rng.random() < 0.3]]
+    if rng.random() < 0.5:
+        head.reverse()
+    ops = head + [[("all",), f2, rng.random() < 0.3], [("all",), f1, False]]
+    for _ in range(rng.randrange(3, 9)):
+        name = rng.choice(BITCOIN_F) if rng.random() < 0.45 else rng.choice([f1, f2, rng.choice(customs)])
+        ops.append([rng.choice(variants), name, rng.random() < 0.3])
+    ops.append([("all",), "default", False])
+    return [[list(v), f, bool(k)] for v, f, k in ops]
+
+
+def judge_merkle_history(tag, n, ops, rec):
+    """one sequence of merkle() calls; each result is the tree root under the combining function of THAT call"""
+    case = {"kind": "merkle_history", "tag": tag, "n": n, "ops": [[list(v), f, bool(k)] for v, f, k in ops]}
+    rec.case(("merkle_history", tag, n, repr(case["ops"])), nontrivial=n > 1)
+    lists = {}
+    seen = {}                                     # variant -> classes of function already applied to it
+    for step, (variant, name, kw) in enumerate(ops):
+        variant = tuple(variant)
+        fresh = _variant(tag, n, variant)
+        if not fresh:
+            continue
+        mine = lists.setdefault(variant, list(fresh))           # the same list object is handed over every time
+        (st, r), ref_f = _call_merkle(mine, name, kw, rec)
+        want = RM.root_with(fresh, ref_f)
+        bitcoin = name in BITCOIN_F
+        if len(fresh) > 1:
+            prev = seen.setdefault(variant, set())
+            if bitcoin and "custom" in prev:
+                rec.ev("history:custom_then_bitcoin")
+            if not bitcoin and "bitcoin" in prev:
+                rec.ev("history:bitcoin_then_custom")
+            prev.add("bitcoin" if bitcoin else "custom")
+        if st != "ok" or bytes(r) != want:
+            rec.violation("merkle.history.bitcoin_root_mismatch" if bitcoin else "merkle.history.custom_hash_f_root_mismatch",
+                          dict(case, step=step), r, want)
+            return
+
+
+def judge_block_object_history(net, data, bad, rec):
+    """one Block object: good txs (checked) -> bad txs set unchecked -> explicit check must refuse -> checked set of the bad
+    list must refuse -> the good list is accepted again and the object serialises to the honest block."""
+    Block = _net(net).block
+    header, txs, used = RB.parse_block(data)
+    bheader, btxs, used = RB.parse_block(bad)
+    if RB.root_of(txs) != header["root"] or RB.root_of(btxs) == header["root"] or bheader != header:
+        raise RuntimeError("judge_block_object_history: generator error")
+    case = {"kind": "block_object_history", "net": net, "data": data, "bad": bad}
+    rec.case(("block_object_history", net, data, bad))
+    rec.ev("Block.from_bin")
+    st, b = observe(Block.from_bin, data)
+    st1, g = observe(Block.from_bin, data)
+    if st != "ok" or st1 != "ok":
+        rec.violation("block.parse_rejects_valid", case, b if st != "ok" else g, "block")
+        return
+    st, x = observe(Block.parse, io.BytesIO(bad), check_merkle_hash=False)
+    if st != "ok":
+        return                                  # the unchecked parse is not demanded
+    good_txs, bad_txs = list(g.txs), list(x.txs)
+    rec.ev("Block.check_merkle_hash")
+    st, e = observe(b.check_merkle_hash)
+    if st != "ok":
+        rec.violation("block.check_merkle_hash_rejects_valid", case, e, None)
+    st, e = observe(b.set_txs, list(bad_txs), check_merkle_hash=False)
+    if st != "ok":
+        return
+    rec.ev("BadMerkleRoot:Block.check_merkle_hash")
+    st, e = observe(b.check_merkle_hash)
+    if st == "ok":
+        rec.violation("block.history.check_merkle_hash_stale_after_set_txs", case, "no exception", "BadMerkleRootError")
+    rec.ev("BadMerkleRoot:Block.set_txs")
+    st, e = observe(b.set_txs, list(bad_txs))
+    if st == "ok":
+        rec.violation("block.history.set_txs_accepts_bad_after_good", case, "no exception", "BadMerkleRootError")
+    rec.ev("Block.set_txs")
+    st, e = observe(b.set_txs, list(good_txs))
+    if st != "ok":
+        rec.violation("block.history.set_txs_rejects_valid_after_refusal", case, e, None)
+        return
+    rec.ev("Block.as_bin")
+    st, out = observe(b.as_bin)
+    if st != "ok" or out != data:
+        rec.violation("block.history.roundtrip_mismatch", case, out, data)
+    rec.ev("Block.check_merkle_hash")
+    st, e = observe(b.check_merkle_hash)
+    if st != "ok":
+        rec.violation("block.history.check_merkle_hash_rejects_valid_after_refusal", case, e, None)
+    _judge_id(b, data, case, rec)
+
+
+ID_READS = ("hash", "id", "as_bin", "blockheader_id", "str")
+
+
+def gen_id_history(rng, nonce0):
+    """ops: ["nonce", v] / ["read", what]; reads before and after, nonce set twice in a row, set back to an earlier value"""
+    ops = []
+    nonces = [nonce0]
+    if rng.random() < 0.7:
+        ops.append(["read", rng.choice(ID_READS)])
+    for _ in range(rng.randrange(2, 6)):
+        r = rng.random()
+        v = rng.choice(nonces) if r < 0.3 else (nonces[-1] + rng.choice([1, 0xffffffff, 1 << 31])) & 0xffffffff if r < 0.6 \
+            else G.pick_u32(rng)
+        nonces.append(v)
+        ops.append(["nonce", v])
+        if rng.random() < 0.25:
+            v = G.pick_u32(rng)
+            nonces.append(v)
+            ops.append(["nonce", v])
+        for _ in range(rng.randrange(1, 4)):
+            ops.append(["read", rng.choice(ID_READS)])
+    ops += [["read", "id"], ["read", "hash"], ["read", "as_bin"]]
+    return ops
+
+
+def judge_id_history(net, data, ops, rec):
+    """header (80 bytes) or block bytes; after every set_nonce the object is the block with that nonce"""
+    Block = _net(net).block
+    full = len(data) > 80
+    header = RB.parse_header(data[:80])
+    case = {"kind": "id_history", "net": net, "data": data, "ops": [list(o) for o in ops]}
+    rec.case(("id_history", net, data, repr(ops)))
+    st, b = observe(Block.parse, io.BytesIO(data), include_transactions=full)
+    if st != "ok":
+        rec.violation("block.parse_rejects_valid" if full else "header.parse_raises", case, b, "block")
+        return
+    cur = dict(header)
+    changed = False
+    for step, (op, arg) in enumerate(ops):
+        if op == "nonce":
+            rec.ev("Block.set_nonce")
+            st, e = observe(b.set_nonce, arg)
+            if st != "ok":
+                rec.violation("block.set_nonce_raises", dict(case, step=step), e, None)
+                return
+            cur["nonce"] = arg
+            changed = True
+            continue
+        hdr = RB.ser_header(cur)
+        want_hash = RT.dsha(hdr)
+        bad = None
+        if arg == "hash":
+            rec.ev("Block.hash")
+            st, h = observe(b.hash)
+            if st != "ok" or bytes(h) != want_hash:
+                bad = (h, want_hash)
+        elif arg == "id":
+            rec.ev("Block.id")
+            st, i = observe(b.id)
+            if st != "ok" or i != want_hash[::-1].hex():
+                bad = (i, want_hash[::-1].hex())
+        elif arg == "blockheader_id":
+            st, hb = observe(b.as_blockheader)
+            if st == "ok":
+                rec.ev("Block.as_blockheader.id")
+                st, i = observe(hb.id)
+                if st != "ok" or i != want_hash[::-1].hex():
+                    bad = (i, want_hash[::-1].hex())
+        elif arg == "str":
+            observe(str, b)                      # stimulus only (reads the id)
+        elif arg == "as_bin":
+            rec.ev("Block.as_bin")
+            st, out = observe(b.as_bin)
+            want = hdr + data[80:]
+            if st != "ok" or out != want:
+                rec.violation("block.history.as_bin_mismatch_after_set_nonce" if changed else "block.roundtrip_mismatch",
+                              dict(case, step=step), out, want)
+                return
+        if bad:
+            rec.violation("block.id_stale_after_set_nonce" if changed else "block.id_mismatch", dict(case, step=step), bad[0], bad[1])
+            return
+
+
+def run_history(spec, rec):
+    net = spec["net"]
+    rng = shard_rng(spec["seed"], PROPERTY, spec["tier"], spec["shard"])
+    customs = sorted(CUSTOM_F)
+    sizes = list(range(1, 34)) + [64, 65, 127, 129]
+    for rep in range(spec["reps"]):
+        # (1) merkle() call sequences over overlapping lists with varying combining functions
+        for n in sizes + [rng.randrange(34, 400)]:
+            tag = "h%s/%s/%d" % (spec["seed"], net, rep)
+            for k in range(2 if n <= 12 else 1):
+                judge_merkle_history("%s/%d" % (tag, k), n, gen_merkle_history(rng, n), rec)
+        # (2) blocks parsed / checked after other trees were computed over their txids
+        for n in list(range(1, 20)) + [rng.randrange(20, 34), 33, 64, 65]:
+            header, txs = G.rand_block(rng, n)
+            data = RB.ser_block(header, txs)
+            txids = [RT.txid_bytes(t) for t in txs]
+            pre = rng.sample(customs, rng.choice([1, 1, 2]))
+            if rng.random() < 0.3:
+                pre.insert(rng.randrange(len(pre) + 1), rng.choice(BITCOIN_F))
+            judge_block(net, data, rec, pre=pre)
+            if n > 1:
+                # the block that carries the OTHER function's root is not a Bitcoin block
+                for name in pre + [rng.choice(customs)]:
+                    if name in BITCOIN_F:
+                        continue
+                    other = RM.root_with(txids, CUSTOM_F[name])
+                    if other == header["root"]:
+                        continue
+                    rec.ev("BadMerkleRoot:other_hash_f_root")
+                    order = [name] if rng.random() < 0.7 else [name, "default"] if rng.random() < 0.5 else ["default", name]
+                    judge_badroot(net, RB.ser_block(dict(header, root=other), txs), rec, "root_of_other_hash_f", pre=order)
+                judge_block(net, data, rec, pre=["default"])
+            # (3) one Block object through good / bad transaction lists
+            alts = [(c, t2) for c, h2, t2 in _alterations(header, txs, rng) if h2 is header and RB.root_of(t2) != header["root"]]
+            for c, t2 in rng.sample(alts, min(len(alts), 2 if n <= 33 else 1)):
+                judge_block_object_history(net, data, RB.ser_block(header, t2), rec)
+            # (4) set_nonce / id histories on the block and on its header
+            judge_id_history(net, data, gen_id_history(rng, header["nonce"]), rec)
+            judge_id_history(net, data[:80], gen_id_history(rng, header["nonce"]), rec)
+            # (5) an honest proof and one corrupted hash after other trees over the same leaves
+            if n <= 33:
+                m = [i for i in range(n) if rng.random() < 0.4]
+                total, hashes, fb = RP.build(txids, m)
+                _pre_calls(txids, [rng.choice(customs)], {"kind": "merkle_history", "tag": "proof-pre", "n": n, "ops": []}, rec)
+                judge_proof(net, proof_msg(header, total, hashes, fb), "honest", [txids[i] for i in sorted(m)], rec)
+                i = rng.randrange(len(hashes))
+                judge_proof(net, proof_msg(header, total, hashes[:i] + [_flip(hashes[i], rng.randrange(256))] + hashes[i + 1:], fb),
+                            "hash_bit", None, rec)
+    rec.sample({"op": "merkle() history", "functions": sorted(CUSTOM_F) + list(BITCOIN_F),
+                "example": gen_merkle_history(shard_rng(0, PROPERTY, "sample", 0), 5)})
+
+
 def run_shard(spec, rec):
     kind = spec["kind"]
     if kind == "blocks":
@@ -617,6 +1004,12 @@ def run_shard(spec, rec):
     elif kind == "cve":
         rec.require("proof:cve_duplicate")
         run_cve(spec, rec)
+    elif kind == "history":
+        rec.require("merkle", "merkle(hash_f=custom)", "merkle(hash_f=double_sha256)", "history:custom_then_bitcoin",
+                    "history:bitcoin_then_custom", "Block.from_bin", "BadMerkleRoot:Block.from_bin", "BadMerkleRoot:other_hash_f_root",
+                    "Block.set_txs", "Block.check_merkle_hash", "BadMerkleRoot:Block.check_merkle_hash", "Block.set_nonce", "Block.id",
+                    "proof:honest")
+        run_history(spec, rec)
     elif kind == "proofs":
         rec.require("message.parse(merkleblock)", "proof:honest", "proof:hash_bit", "proof:hash_appended", "proof:hash_inserted",
                     "proof:hash_removed", "proof:padding_bit", "proof:root_altered")
@@ -630,9 +1023,15 @@ def replay_case(case, rec):
     if kind == "header":
         judge_header(case["net"], case["data"], rec)
     elif kind == "block":
-        judge_block(case["net"], case["data"], rec)
+        judge_block(case["net"], case["data"], rec, pre=case.get("pre"))
     elif kind == "badroot":
-        judge_badroot(case["net"], case["data"], rec, case.get("cls", "altered"))
+        judge_badroot(case["net"], case["data"], rec, case.get("cls", "altered"), pre=case.get("pre"))
+    elif kind == "merkle_history":
+        judge_merkle_history(case["tag"], case["n"], case["ops"], rec)
+    elif kind == "block_object_history":
+        judge_block_object_history(case["net"], case["data"], case["bad"], rec)
+    elif kind == "id_history":
+        judge_id_history(case["net"], case["data"], case["ops"], rec)
     elif kind == "merkle":
         judge_merkle(case["hashes"], rec)
     elif kind == "merkle_fake":
